@@ -285,8 +285,9 @@ Proof.
   - intros nid nins nouts subs HF d rest W. simpl.
     induction HF as [|g gs Hg _ IH]; simpl.
     + exact W.
-    + destruct g as [gid f ins outs nodes]. simpl. rewrite <- app_assoc. simpl.
-      specialize (Hg (S d) (EExit :: _ ++ rest) IH). simpl in Hg. rewrite <- app_assoc in Hg. simpl in Hg. exact Hg.
+    + destruct g as [gid f ins outs nodes]. simpl.
+      specialize (Hg (S d) (EExit :: _ ++ rest) IH). simpl in Hg.
+      repeat (rewrite <- app_assoc in Hg; simpl in Hg). repeat (rewrite <- app_assoc; simpl). exact Hg.
 Qed.
 
 Lemma fix_graph_names_no_inits g vn nn inits m :
